@@ -857,7 +857,7 @@ func oneCase(run *hx.Run, ty string, z *authz, p *payload, tagPrefix string) {
 		run.Line(op, "panic")
 		run.Tag(tagPrefix + "panic(nil-pointer-input)")
 		if !willPanic(ty, p) {
-			run.Violate("filter:"+ty+":unexpected-panic", "the filter panicked on a well-formed response", []string{op})
+			violate(run, "filter:"+ty+":unexpected-panic", "the filter panicked on a well-formed response", []string{op})
 		}
 		run.Case(op, true)
 		return
@@ -867,7 +867,7 @@ func oneCase(run *hx.Run, ty string, z *authz, p *payload, tagPrefix string) {
 	want, silent := spec(ty, p, z)
 	wantS := enc(ty, want)
 	if willPanic(ty, p) {
-		run.Violate("filter:"+ty+":no-panic-on-nil-input", "expected a panic", []string{op})
+		violate(run, "filter:"+ty+":no-panic-on-nil-input", "expected a panic", []string{op})
 	}
 	removed := args != implOut
 	if implOut != wantS {
@@ -876,17 +876,17 @@ func oneCase(run *hx.Run, ty string, z *authz, p *payload, tagPrefix string) {
 		w2.flag, o2.flag, w2.fb, o2.fb = false, false, false, false
 		switch {
 		case enc(ty, &w2) == enc(ty, &o2):
-			run.Violate("filter:"+ty+":flag-differs-from-something-removed",
+			violate(run, "filter:"+ty+":flag-differs-from-something-removed",
 				fmt.Sprintf("flag/filtered marker: impl %q, expected %q", implOut, wantS), []string{op})
 		default:
 			again, _ := spec(ty, out, z)
 			a2 := *again
 			a2.flag, a2.fb = false, false
 			if enc(ty, &a2) != enc(ty, &o2) {
-				run.Violate("filter:"+ty+":unreadable-entry-returned",
+				violate(run, "filter:"+ty+":unreadable-entry-returned",
 					fmt.Sprintf("impl returned %q; what the token may read is %q", implOut, wantS), []string{op})
 			} else {
-				run.Violate("filter:"+ty+":readable-entry-dropped-or-reordered",
+				violate(run, "filter:"+ty+":readable-entry-dropped-or-reordered",
 					fmt.Sprintf("impl returned %q; what the token may read is %q", implOut, wantS), []string{op})
 			}
 		}
@@ -988,6 +988,15 @@ func runExhaustive(run *hx.Run) {
 			p.txns = append(p.txns, t)
 		}
 		oneCase(run, "TxnResults", z, p, "exh:")
+		// map keyed by service ID, permission by service name: IDs are the universe names in order,
+		// names follow the arrangement (regression guard for 8c494bd)
+		if len(arr) <= len(names)-1 {
+			p = &payload{nsNode: sp("web")}
+			for i, c := range arr {
+				p.ns = append(p.ns, nsEnt{key: names[1+i], name: classes[c][1], id: nid()})
+			}
+			oneCase(run, "IndexedNodeServices", z, p, "exh:")
+		}
 		// nested: class 0 = readable node with mixed services, 1 = unreadable node, 2 = readable node whose nested entries all go
 		p = &payload{}
 		for _, c := range arr {
@@ -1027,7 +1036,7 @@ func checkSwitchCoverage(run *hx.Run) {
 	fset := token.NewFileSet()
 	file, err := parser.ParseFile(fset, "filter.go", aclfilter.VerifFilterSource, 0)
 	if err != nil {
-		run.Violate("filter:switch-scan-failed", err.Error(), nil)
+		violate(run, "filter:switch-scan-failed", err.Error(), nil)
 		return
 	}
 	known := map[string]bool{}
@@ -1059,13 +1068,13 @@ func checkSwitchCoverage(run *hx.Run) {
 		return false
 	})
 	if len(found) == 0 {
-		run.Violate("filter:switch-scan-failed", "no case found in the Filter.Filter type switch", nil)
+		violate(run, "filter:switch-scan-failed", "no case found in the Filter.Filter type switch", nil)
 	}
 	var fs []string
 	for t := range found {
 		fs = append(fs, t)
 		if !known[t] {
-			run.Violate("filter:unmodelled-response-type", "case "+t+" of the Filter.Filter type switch has no model / exerciser", nil)
+			violate(run, "filter:unmodelled-response-type", "case "+t+" of the Filter.Filter type switch has no model / exerciser", nil)
 		}
 	}
 	for t := range known {
